@@ -451,6 +451,22 @@ def main(tier, replay=None):
             continue
         if any("seq_diags" in o for o in runs.values()):
             stats["loading_projects"] = stats.get("loading_projects", 0) + 1
+        # -- oracle 1d: legal projects whose results must not depend on symbol ids: only the expected diagnostic codes
+        if case.get("expect_codes") is not None:
+            allowed = set(case["expect_codes"])
+            wrong = [(kt, o, [x for x in o["diags"] if x.split("|")[0] not in allowed])
+                     for kt, o in sorted(runs.items(), key=lambda x: (x[0][1], x[0][0]))]
+            wrong = [w for w in wrong if w[2]]
+            if wrong:
+                (k, t), o, ds = wrong[0]
+                nviol += 1
+                if nviol <= 10:
+                    res.violation("a legal project (same-line interface objects / record elements / parameters with positional "
+                                  "association) gets %d spurious diagnostic(s) under %d rayon worker(s), listing order %d, e.g. %s "
+                                  "(%d of %d runs affected: results depend on symbol ids, i.e. on the loader schedule)"
+                                  % (len(ds), t, k, ds[0][:160], len(wrong), len(runs)),
+                                  replay_obj(ci, "input", {"threads": t, "k": k, "spurious": ds[:6]}))
+                continue
         # -- oracle 1c: no lost unit: the list DesignRoot::analyze returns for a fresh project (the units handed to the
         #    linters) is the list of all units, on every schedule
         if not case.get("seqref"):
@@ -535,7 +551,10 @@ def main(tier, replay=None):
         "multiset must equal the one-file-at-a-time reference (VHDLParser on each file alone); plus hub projects (4-8 "
         "large packages with type mismatches below operators, unresolved names, wrong argument counts, used by 16-40 "
         "leaf packages: contention on unit locks) and lint_dep projects (10-24 sub/top pairs, the sub architecture "
-        "named by the instantiation, so it is reached as a dependency). All linters are enabled (every generated "
+        "named by the instantiation, so it is reached as a dependency) and symorder projects (legal; fresh identifiers "
+        "first seen by several files parsed in parallel name same-line generics / ports / record elements / parameters, "
+        "consumed by positional generic and port maps, positional calls and aggregates with differently typed actuals: "
+        "symbol ids must not leak into results). All linters are enabled (every generated "
         "architecture has an unused signal and an incomplete sensitivity list); the unit list returned by "
         "DesignRoot::analyze (hook H2) must be the list of all units. Every project is "
         "loaded with Project::from_config (parallel parsing) and analysed under rayon pools of %s workers x %d library/"
